@@ -1,5 +1,7 @@
 /*! Multithreaded version of Graph, otherwise the same as graph.rs.
  */
+#[cfg(feature = "verif")]
+use crate::verif::vstd as std;
 use std::collections::BTreeMap;
 use std::time::Instant;
 
